@@ -257,6 +257,9 @@ func runC13(t gen.Tier, rng *gen.Rng, rep *Reporter) {
 	hm := st.histories
 	runRacer(rep, bin, root, "composite", seed, 0, t.N(50, 1500), 1, 5000, time.Duration(t.N(60, 600))*time.Second, &st)
 	rep.Stat("histories_composite", st.histories-hm)
+	hc := st.histories
+	runRacer(rep, bin, root, "bcomposite", seed, 0, t.N(40, 1200), 1, 5000, time.Duration(t.N(60, 600))*time.Second, &st)
+	rep.Stat("histories_bitmapped_composite", st.histories-hc)
 	runAtomic(rep, bin, t.N(700, 8000), &st)
 	rep.Stat("operations", st.ops)
 	rep.Stat("operations_with_result", st.nontrivial)
@@ -268,7 +271,7 @@ func runC13(t gen.Tier, rng *gen.Rng, rep *Reporter) {
 	rep.Stat("non_linearizable", st.nonlin)
 }
 
-var replayRe = regexp.MustCompile(`^R (message|composite) seed=(\d+) hist=(\d+)`)
+var replayRe = regexp.MustCompile(`^R (message|composite|bcomposite) seed=(\d+) hist=(\d+)`)
 
 // linesC13 re-runs the histories named by replay lines, 200 times each
 func linesC13(lines []string, rep *Reporter) {
